@@ -44,6 +44,7 @@ func C42(e *simkern.Env) {
 	if tp.Bool(1, 3) {
 		transport = "tcp"
 	}
+	staleFile := tp.Bool(1, 4) // a predecessor crashed and left its socket file behind (unix only)
 	T := time.Duration(tp.Pick(10, 0, 1, 90, 60)) * time.Second
 	nClients := 1 + tp.Draw(4)
 	maxRounds := 2
@@ -70,6 +71,7 @@ func C42(e *simkern.Env) {
 	}
 	e.Knob("shm_clients", shmClient)
 	e.Knob("transport", transport)
+	e.Knob("stale_socket_file", staleFile)
 	e.Knob("idle_timeout_s", int(T/time.Second))
 	e.Knob("clients", nClients)
 	e.Knob("rounds", rounds)
@@ -195,6 +197,15 @@ func C42(e *simkern.Env) {
 			if fi.Mode().Perm() != 0o600 {
 				violate("socket-file-not-owner-only", siteOf(where), "socket file mode is %#o, want 0600", fi.Mode().Perm())
 			}
+		}
+		if transport == "unix" && staleFile {
+			// a socket file left behind by a predecessor that crashed
+			sim.Fault("stale-socket-file")
+			if err := os.WriteFile(w.SocketPath(), nil, 0o755); err != nil {
+				e.Harness("world U: cannot plant the stale socket file: %v", err)
+				return
+			}
+			_ = os.Chmod(w.SocketPath(), 0o755)
 		}
 		sim.Spawn("server", func() {
 			var err error
@@ -663,7 +674,7 @@ func init() {
 		Stub:  []string{"listening socket and connections (listenw.Listener, hx.Pipe) behind the woven net.Listen seam", "socket file (regular stand-in file in a per-run scratch directory; created by bind, unlinked by the first Close like a net.Listen unix listener)", "protocol client (arrow-go IPC)", "scripted handlers and producer state"},
 		Quick: 640, Thorough: 32000,
 		Warm:       warmPipe,
-		FaultKinds: []string{"clock-advance", "operator-shutdown"},
+		FaultKinds: []string{"clock-advance", "operator-shutdown", "stale-socket-file"},
 		Assumptions: []string{
 			"a connection counts as open from the server's first Read on it until the first Close on either end; a connection the listener has handed out (or that sits in the backlog) but that the server has not begun to serve when the idle shutdown is decided races with the shutdown and may be served to completion or reset — no accept-based server can exclude that",
 			"idleness before a self-initiated stop is measured from the client-side close of the last served connection (never later than the server's own bookkeeping) or from bind; the instant judged is the listener's own Close, the return instant is only required to have no open connection",
